@@ -37,10 +37,10 @@ ANCHORS = [("lena/core/sequence.py", 57, 77), ("lena/core/adapters.py", 690, 715
 MUST_REACH = ["lena/core/sequence.py:Sequence.run", "lena/core/adapters.py:Run._call_run",
               "lena/core/split.py:Split.run", "lena/flow/iterators.py:Slice._run_negative_islice",
               "lena/flow/elements.py:Count.run", "lena/flow/elements.py:RunIf.run",
-              "lena/flow/filter.py:Filter.run"]
+              "lena/flow/filter.py:Filter.run", "lena/core/adapters.py:FillRequest._run_run"]
 MUST_COUNT = ["pull_events", "got_events", "stop_points_checked", "census_events"]
-MIN_NONTRIVIAL = {"quick": 500, "thorough": 20000}
-NPROG = {"quick": 1500, "thorough": 60000}
+MIN_NONTRIVIAL = {"quick": 3000, "thorough": 150000}
+NPROG = {"quick": 12000, "thorough": 600000}
 
 LEVEL_TEXT = ("Seeded random exploration of streaming pipelines; each execution of the real code is "
               "watched through a pull/got event trace and compared, at every consumer stop point, "
@@ -64,7 +64,7 @@ def rand_el(rng, depth=0, allow_split=True):
         # fill/compute branch (it has fill and compute), which is not a streaming branch
         kinds = [x for x in kinds if x != "count"]
     if depth < 2:
-        kinds += ["seq"]
+        kinds += ["seq", "frun"]
         if allow_split:
             kinds += ["split", "split"]
     k = rng.choice(kinds)
@@ -103,6 +103,11 @@ def rand_el(rng, depth=0, allow_split=True):
         return ["mkfn", rng.choice(["out", "f_{{i}}"])]
     if k == "seq":
         return ["seq", [rand_el(rng, depth + 1, allow_split) for _ in range(rng.randint(0, 3))]]
+    if k == "frun":
+        # FillRequest around a run element with yield_on_remainder: documented to use no
+        # internal buffer during run (results are yielded one by one, block after block)
+        return ["frun", [rand_el(rng, 2, False) for _ in range(rng.randint(0, 2))],
+                rng.randint(1, 5)]
     if k == "split":
         nb = rng.randint(1, 3)
         return ["split", [[rand_el(rng, 2, False) for _ in range(rng.randint(1, 2))]
@@ -146,6 +151,9 @@ def build(r):
                                bufsize=r[2], copy_buf=r[3])
     if k == "runif":
         return lena.flow.RunIf(gen.pred(r[1]), *[build(e) for e in r[2]])
+    if k == "frun":
+        return lena.core.FillRequest(lena.core.Sequence(*[build(e) for e in r[1]]),
+                                     bufsize=r[2], yield_on_remainder=True)
     return gen.build(r)
 
 
@@ -183,6 +191,24 @@ def ref_stream(r, el, flow):
         for er, e in zip(r[1], el._data_seq_orig):
             f = ref_stream(er, e, f)
         return f
+    if k == "frun":
+        def gen_frun():
+            flow_it = iter(flow)
+            while True:
+                try:
+                    first = next(flow_it)
+                except StopIteration:
+                    return
+                block = itertools.chain([first], itertools.islice(flow_it, r[2] - 1))
+                f = block
+                for er, e in zip(r[1], el._inner_orig):
+                    f = ref_stream(er, e, f)
+                for x in f:
+                    yield x
+                # what the element left of its block is passed over before the next block
+                for _ in block:
+                    pass
+        return gen_frun()
     if k == "split":
         def gen_split():
             bufsize, copy_buf = r[2], r[3]
@@ -273,6 +299,8 @@ def build_pair(recipes):
             seq._data_seq_orig = [twin(e) for e in r[2]]
         elif r[0] == "split":
             el._ref_branches = [[twin(e) for e in br] for br in r[1]]
+        elif r[0] == "frun":
+            el._inner_orig = [twin(e) for e in r[1]]
         return el
     real = lena.core.Sequence(*[build(r) for r in recipes])
     ref_els = [twin(r) for r in recipes]
